@@ -81,7 +81,13 @@ class GenericCallAdapter(Adapter):
 
         if node is not None:
             assert isinstance(node, ast.Call)
-            assert all(kw.arg for kw in node.keywords)
+            if any(isinstance(arg, ast.Starred) for arg in node.args) or any(
+                kw.arg is None for kw in node.keywords
+            ):
+                # star-expressions: the arguments can not be mapped to nodes
+                node = None
+
+        if node is not None:
             kw_arg_node = {kw.arg: kw.value for kw in node.keywords if kw.arg}.get
 
             def pos_arg_node(pos):
